@@ -13,7 +13,8 @@ ENV_BY_TIER = {"quick": {"NUMBA_DISABLE_JIT": "1"}, "thorough": {}}
 RULE = ("(a) repeated identical calls in one process; (b) the same calls in fresh subprocesses with "
         "PYTHONHASHSEED in {0, 1, 12345}; (c) discrete-time methods with num_threads in {None, 1, 2, 4}; all must be "
         "bit-identical (tables minus provenance); (d) one prior object reused across log/linear/log calls vs fresh "
-        "priors (1e-6 relative; measured 2e-7); (e) ties of the Coq models: the likelihood cache filled by "
+        "priors (1e-6 relative; measured 2e-7); (d') approximate priors with a cold then warm on-disk lookup table "
+        "(redirected cache dir) must give bit-identical grids and dates; (e) ties of the Coq models: the likelihood cache filled by "
         "precalculate_mutation_likelihoods vs model gather on a shuffled result list, and the conversions done by "
         "NodeTimeValues.force_probability_space vs model conv_trace; non-trivial = the call returned")
 ASSUME = ["scheduler / hash-seed effects are only sampled (a theorem cannot exhibit them)",
@@ -121,6 +122,48 @@ def space_tie(ctx, rng):
     ctx.case({"level": "space", "spaces": ss, "ops": ops}, nontrivial=len(ops) > 0, kind="space-tie")
 
 
+def cold_warm(ctx, rng):
+    """approximate priors go through an on-disk lookup table: the call that creates it (cold) and every
+    later call that reads it back (warm, same or fresh process) must give bit-identical prior grids and dates"""
+    import tempfile
+    import tsdate
+    from vlib import gen
+    from tsdate import cache as tcache
+    old = os.environ.get("XDG_CACHE_HOME")
+    d = tempfile.mkdtemp(dir=ctx.work)
+    os.environ["XDG_CACHE_HOME"] = d
+    try:
+        if not os.path.abspath(str(tcache.get_cache_dir())).startswith(os.path.abspath(d)):
+            ctx.notes["cold_warm"] = "skipped: cache directory could not be redirected"
+            return
+        ts = D.datable_ts(rng, historical=False, big=True)
+        n = rng.choice([10, 100, 1000])
+        dist = rng.choice(["lognorm", "gamma"])
+        grids, digests = [], []
+        for _k in range(3):   # cold, warm, warm
+            g = tsdate.build_prior_grid(ts, population_size=1.0, approximate_priors=True, approx_prior_size=n,
+                                        prior_distribution=dist)
+            grids.append((np.array(g.grid_data), np.array(g.timepoints)))
+            r = D.call("inside_outside", ts, mutation_rate=1e-2, priors=g)
+            digests.append(digest(r[1]) if r[0] == "ok" else "raise:" + r[1])
+        ctx.case({"check": "cold/warm approximate prior table", "approx_prior_size": n, "dist": dist,
+                  "ts": gen.ts_summary(ts)}, nontrivial=True, kind="cold-warm")
+        replay = {"ts": gen.ts_tables_dict(ts), "approx_prior_size": n, "dist": dist}
+        for k in (1, 2):
+            if not (np.array_equal(grids[0][0], grids[k][0], equal_nan=True) and np.array_equal(grids[0][1], grids[k][1])):
+                ctx.oracle_fail("cold-warm-prior-differs", "prior grid built while the lookup table was being created differs "
+                                "from the one built from the cached file (approx_prior_size=%d, %s)" % (n, dist), replay)
+                return
+            if digests[0] != digests[k]:
+                ctx.oracle_fail("cold-warm-dates-differ", "dates of the first (cold cache) call differ from a later (warm cache) call", replay)
+                return
+    finally:
+        if old is None:
+            os.environ.pop("XDG_CACHE_HOME", None)
+        else:
+            os.environ["XDG_CACHE_HOME"] = old
+
+
 def make_case(rng):
     method = rng.choice(D.METHODS)
     ts = D.datable_ts(rng, historical=(method == "variational_gamma" and rng.random() < 0.2), big=rng.random() < 0.15,
@@ -185,6 +228,8 @@ def run(ctx, model_ok=True):
                 if d > 1e-6:
                     ctx.oracle_fail("prior-reuse-differs", "%s differs by %.3g between reused and fresh prior (spaces %r)" % (key, d, seq),
                                     {"ts": gen.ts_tables_dict(ts), "spaces": seq})
+    for _ in range(ctx.n(4, 30)):
+        cold_warm(ctx, rng)
     if model_ok:
         for _ in range(ctx.n(3, 40)):
             cache_tie(ctx, rng)
